@@ -3,28 +3,22 @@ import MythVerif.Proofs.WsQueueTsoTac
 namespace MythVerif.WsqTso
 open MythVerif.Wsq
 
-set_option maxHeartbeats 4000000 in
 theorem f_O_top_pt5 (s : St) (v0) (rest : List Sto) (e off) : Inv s → s.opc = .pt5 e off →
     s.bufO = .top v0 :: rest → Inv (applySto { s with bufO := rest } (.top v0)) := by
   intro h hpc hb
   simp only [applySto]
-  cases h; simp only [hpc, ownerLocked, carry, resetting, ownerFlight] at *
-  tso_finish3
+  tso_fastO h hpc [pt5]
 
-set_option maxHeartbeats 4000000 in
 theorem f_O_top_pt6 (s : St) (v0) (rest : List Sto) (e) : Inv s → s.opc = .pt6 e →
     s.bufO = .top v0 :: rest → Inv (applySto { s with bufO := rest } (.top v0)) := by
   intro h hpc hb
   simp only [applySto]
-  cases h; simp only [hpc, ownerLocked, carry, resetting, ownerFlight] at *
-  tso_finish3
+  tso_fastO h hpc [pt6]
 
-set_option maxHeartbeats 4000000 in
 theorem f_O_top_pt7 (s : St) (v0) (rest : List Sto) (e b) : Inv s → s.opc = .pt7 e b →
     s.bufO = .top v0 :: rest → Inv (applySto { s with bufO := rest } (.top v0)) := by
   intro h hpc hb
   simp only [applySto]
-  cases h; simp only [hpc, ownerLocked, carry, resetting, ownerFlight] at *
-  tso_finish3
+  tso_fastO h hpc [pt7]
 
 end MythVerif.WsqTso
